@@ -876,6 +876,24 @@ R.contract(
     replayable=False,
 )
 
+
+# ------------------------------------------------------------------------------------------------- adjust_urlencoded_payload: only a form-urlencoded body is re-shaped, every other body is left alone
+BLD6 = "schemathesis.generation.hypothesis.builder:"
+_pu = R.contracts["schemathesis.core.transport:prepare_urlencoded"]
+_pu.returns = lambda it, env: ("urlencoded-shape-of", env["data"])
+_pu.call_ensures = {}
+R.contract(
+    BLD6 + "adjust_urlencoded_payload",
+    prop="C06",
+    args={"case": Obj("spec:CaseWithBody", media_type=OneOf(NoneT, Choice("application/x-www-form-urlencoded", "application/json", "multipart/form-data", "text/plain")), body=Opq("Body"))},
+    raises=[],
+    ensures={
+        "only_form_urlencoded_bodies_are_reshaped": "(case.body == ('urlencoded-shape-of', old(case.body))) if case.media_type == 'application/x-www-form-urlencoded' else (case.body is old(case.body))",
+        "the_media_type_is_untouched": "case.media_type == old(case.media_type)",
+    },
+    replayable=False,
+)
+
 LEVEL_TEXT = ("Deductive: each style encoder against the wire form of the OpenAPI serialization table, serialize_case's query/cookie/method/url pass-through; "
               "arrays/objects explored up to a small size (labelled bounded). URL composition and the requests library are trusted. Level other.")
 LEVEL_NOTE = "Trusted: requests (E4), str.join/split inversion and urllib (E5), pyvc semantics (E9)."
